@@ -195,8 +195,9 @@ class PVLEncoder(object):
             (preq, _, posteq) = s.partition("=")
             new_prefix = prefix + preq.strip() + " = "
 
+            (protected, restore) = self._protect_whitespace(posteq.strip())
             lines = textwrap.wrap(
-                posteq.strip(),
+                protected,
                 width=(self.width - len(self.newline)),
                 replace_whitespace=False,
                 initial_indent=new_prefix,
@@ -204,9 +205,42 @@ class PVLEncoder(object):
                 break_long_words=False,
                 break_on_hyphens=False,
             )
-            return self.newline.join(lines)
+            if len(lines) == 0:
+                # Nothing after the equals sign to wrap.
+                return prefix + s
+
+            return self.newline.join(lines).translate(restore)
         else:
             return prefix + s
+
+    def _protect_whitespace(self, s: str) -> tuple:
+        """Returns a two-tuple of a version of *s* in which the white
+        space characters that must not be used to wrap a line have been
+        replaced by placeholder characters, and a translation table
+        (for str.translate()) that restores them.
+
+        Lines must not be broken inside Units Expressions or single-quoted
+        strings, nor inside double-quoted strings if this encoder's decoder
+        would read the line break back as part of the string.
+        """
+        patterns = [r"<[^>]*>", r"'[^']*'"]
+        if self.decoder.decode_quoted_string('" \n "') != " ":
+            patterns.append(r'"[^"]*"')
+        # In the alternation, the leftmost match wins, so a quote character
+        # inside another kind of quoted string does not start an element.
+        elements = re.compile("|".join([r'"[^"]*"'] + patterns))
+
+        ws = "".join(self.grammar.whitespace)
+        unused = (chr(c) for c in range(0xE000, 0xF8FF) if chr(c) not in s)
+        protect = {ord(w): next(unused) for w in ws}
+        restore = {ord(v): chr(k) for k, v in protect.items()}
+
+        def replace(match):
+            if re.fullmatch("|".join(patterns), match.group(0)):
+                return match.group(0).translate(protect)
+            return match.group(0)
+
+        return elements.sub(replace, s), restore
 
     def encode(self, module: abc.Mapping) -> str:
         """Returns a ``str`` formatted as a PVL document based
